@@ -35,7 +35,7 @@ Has(e, f) == f \in DOMAIN e
 
 StartPos == Decode([r |-> <<261944453, 67977560, 0, 0, 0, 0, 475842920, 669809813>>, stm |-> 0, cr |-> 15, ep |-> 0])
 NoGo == [active |-> FALSE, toks |-> <<>>]
-Fresh == [pos |-> StartPos, hist |-> <<StartPos>>, go |-> NoGo, ready |-> FALSE, eof |-> FALSE, quit |-> FALSE, tend |-> 0, dead |-> FALSE, cmd |-> "startpos", skip |-> FALSE, base |-> <<StartPos>>]
+Fresh == [pos |-> StartPos, hist |-> <<StartPos>>, go |-> NoGo, ready |-> FALSE, eof |-> FALSE, quit |-> FALSE, tend |-> 0, dead |-> FALSE, cmd |-> "startpos", skip |-> FALSE, base |-> <<StartPos>>, gos |-> 0]
 
 RECURSIVE Play(_, _, _)
 Play(p, texts, i) ==
@@ -79,16 +79,21 @@ InStep(e) ==
        \* a move list that is not legal by the rules (it came from the engine's own generator): nothing can be judged
        \* on this position, the session is skipped until the next position command
        IF Len(h) # Len(p.texts) + 1 THEN [sc EXCEPT !.skip = TRUE, !.cmd = e.line]
-       ELSE [sc EXCEPT !.pos = h[Len(h)], !.hist = h, !.base = h, !.cmd = e.line, !.skip = FALSE]
+       ELSE [sc EXCEPT !.pos = h[Len(h)], !.hist = h, !.base = h, !.cmd = e.line, !.skip = FALSE, !.gos = 0]
   ELSE IF Has(e, "go")
   THEN LET legal == Legal(sc.pos) IN
-       [sc EXCEPT !.go = [active |-> TRUE, t |-> e.t, line |-> e.line, toks |-> IF Has(e, "nocontract") THEN <<>> ELSE e.toks,
+       [sc EXCEPT !.gos = @ + 1,
+                  !.go = [active |-> TRUE, t |-> e.t, line |-> e.line, toks |-> IF Has(e, "nocontract") THEN <<>> ELSE e.toks,
                           slice |-> IF sc.pos.stm = 0 THEN e.slice_w ELSE e.slice_b,
                           legal |-> legal, infos |-> <<>>, answers |-> 0, foreign |-> 0,
                           probe |-> IF Has(e, "probe") THEN e.probe ELSE "", timed |-> Has(e, "timed") /\ e.timed,
                           notime |-> Has(e, "notime") /\ e.notime]]
   ELSE IF Has(e, "isready") THEN [sc EXCEPT !.ready = TRUE]
   ELSE IF Has(e, "quit") THEN [sc EXCEPT !.quit = TRUE, !.tend = e.t]
+  \* ucinewgame: the properties say nothing about the board a go finds after it when no position command follows (the pinned
+  \* code keeps its board, an engine that returns to the start position is as right): nothing is judged until the next
+  \* position command
+  ELSE IF Has(e, "newgame") THEN [sc EXCEPT !.skip = TRUE]
   ELSE sc
 
 (***************************************************************************)
@@ -254,7 +259,9 @@ RecordMatches(h, tbl) ==
 
 HkFails(e) ==
   CASE e.h = "go_start" ->
-         (IF s.skip \/ ~Has(e, "table") THEN {}
+         \* (C10 speaks about the record after a position command: judged at the first go behind it; whether the engine's
+         \* own replies enter the record before a further go is not the property's business)
+         (IF s.skip \/ ~Has(e, "table") \/ s.gos # 1 THEN {}
           ELSE IF ~RecordMatches(s.base, e.table) THEN {<<"C10", "record-at-go", D(<<s.cmd, [j \in 1..Len(e.table) |-> e.table[j][2]]>>)>>} ELSE {})
          \* C09 inside the real command loop: the slice planned for THIS go (logged at GoAccept, placed right behind its go
          \* line) obeys the contract for the tokens of this go line alone and for the side to move of the board that is
